@@ -212,16 +212,16 @@ def search(spec):
             if hit:
                 return hit, n
         return None, n
-    if oracle == "C02" and (not q.startswith("Validator.visit_") or q.split("visit_")[-1] in ("list", "dict", "any", "type_alias")):
+    if oracle in ("C02", "C08") and (not q.startswith("Validator.visit_") or q.split("visit_")[-1] in ("list", "dict", "any", "type_alias")):
         cases = []
         dsch = ["schema.dict({'id': schema.int, ...: ..., 'name': schema.str})", "schema.dict({'id': schema.int, ...: ...}) + schema.dict({'name': schema.str})",
                 "schema.dict({...: ..., optional('name'): schema.str})", "schema.dict({'a': schema.int, optional('b'): schema.str})", "schema.dict({'a': schema.int})",
                 "schema.dict", "schema.dict({})"]
-        dval = ["{'id': 1, 'name': 42}", "{'id': 1}", "{'name': None}", "{'id': 1, 'name': 'x'}", "{'a': 1}", "{'a': 1, 'b': 2}", "{}", "{'a': 'x'}", "{'zz': 1}", "[]"]
+        dval = ["{'a': 1, 1: 0, None: 0}", "{'id': 1, 'zz': 0, ('t', 1): 0}", "{b'k': 0, 2.5: 0}", "{'id': 1, 'name': 42}", "{'id': 1}", "{'name': None}", "{'id': 1, 'name': 'x'}", "{'a': 1}", "{'a': 1, 'b': 2}", "{}", "{'a': 'x'}", "{'zz': 1}", "[]"]
         lsch = ["schema.list.len(..., 0)", "schema.list.len(0, 0)", "schema.list(schema.int).len(..., 0)", "schema.list.len(0)", "schema.list(schema.int).len(1, 2)",
                 "schema.list([schema.int, ...])", "schema.list([..., schema.int])", "schema.list([..., schema.int, ...])", "schema.list([schema.int, schema.str])",
                 "schema.list([])", "schema.list", "schema.any(schema.int, schema.list(schema.str))", "schema.alias('n', schema.list(schema.int).len(1))"]
-        lval = ["[]", "[1]", "[1, 2]", "[1, 'x']", "['x']", "['x', 1]", "[1, 2, 3]", "1", "'x'", "['a', 'b']"]
+        lval = ["[None, 1.5, b'x', object()]", "[]", "[1]", "[1, 2]", "[1, 'x']", "['x']", "['x', 1]", "[1, 2, 3]", "1", "'x'", "['a', 'b']"]
         for es, ev_ in list(itertools.product(dsch, dval)) + list(itertools.product(lsch, lval)):
             hit = run({"schema": {"k": "expr", "src": es}, "value": {"k": "expr", "src": ev_}, "path": {"k": "nil"}}, meta)
             if hit:
